@@ -645,6 +645,18 @@ func (s *Server) acceptLoop(procHandler *NFSProcedureHandler) {
 	}
 }
 
+// currentRateLimiter returns the rate limiter of the policy now in force (nil
+// when there is none). UpdatePolicyOptions replaces it while holding the
+// policy write lock, so it is read under the read lock.
+func (s *Server) currentRateLimiter() *RateLimiter {
+	if s.handler == nil {
+		return nil
+	}
+	s.handler.policyRWMu.RLock()
+	defer s.handler.policyRWMu.RUnlock()
+	return s.handler.rateLimiter
+}
+
 // connIO abstracts the read/write framing for a connection, allowing the
 // shared connection loop to work with both raw TCP and record-marking modes.
 type connIO interface {
@@ -719,13 +731,12 @@ func (s *Server) handleConnectionLoop(conn net.Conn, procHandler *NFSProcedureHa
 
 	connID := fmt.Sprintf("conn-%d", s.nextConnID.Add(1))
 
-	var connRateLimiter *RateLimiter
-	if s.handler != nil {
-		connRateLimiter = s.handler.rateLimiter
-	}
+	// The rate limiter is looked up for every request, not once per
+	// connection: a policy update installs a new one (or the first one), and
+	// requests on connections opened before the update are judged by it too.
 	defer func() {
-		if connRateLimiter != nil {
-			connRateLimiter.CleanupConnection(connID)
+		if rl := s.currentRateLimiter(); rl != nil {
+			rl.CleanupConnection(connID)
 		}
 	}()
 
@@ -776,7 +787,7 @@ func (s *Server) handleConnectionLoop(conn net.Conn, procHandler *NFSProcedureHa
 			}
 
 			// Check rate limit
-			if connRateLimiter != nil && s.handler != nil && s.handler.policy.Load().EnableRateLimiting {
+			if connRateLimiter := s.currentRateLimiter(); connRateLimiter != nil && s.handler.policy.Load().EnableRateLimiting {
 				if !connRateLimiter.AllowRequest(authCtx.ClientIP, connID) {
 					reply := &RPCReply{
 						Header: call.Header,
